@@ -247,6 +247,9 @@ theorem flex_net_readyStable (N : Nat) :
     (tflexCore (α := α) N).ReadyStable ∧ (rflexCore (α := α) N).ReadyStable ∧ (netCore (α := α) N).ReadyStable :=
   ⟨Ready.trendFlex N, Ready.reFlex N, Ready.net N⟩
 
+/-- EhlersFisherTransform: from any state and for ANY moving-average view inside it (even one whose own readiness reverted) -/
+theorem fisher_readyStable (N : Nat) (ma : View α) : (eftCore N ma).ReadyStable := Ready.eft N ma
+
 /-- **a chain's readiness never reverts if its outermost core's does not** — whatever the inner view does -/
 theorem chain_readyStable (A : View α) (B : Core α) (hB : B.ReadyStable) : (wrap A B).ReadyStable :=
   Ready.wrap_readyStable A B hB
